@@ -309,3 +309,45 @@ Qed.
 
 Lemma add_rules_succeed cf rs : (exists t, add_rules cf rs empty_table = Some t) <-> forallb rule_valid rs = true.
 Proof. apply add_rules_some. Qed.
+
+(* ---------------------------------------------------------------------------------------------- *)
+(* Drop over an abstract matcher: with the built tables it is drop / drop_ct; and the rule-list matcher gives the same
+   value as the built tables (C16_refine), so either may be evaluated *)
+Lemma matcher_ext (m m' : matcher) ver cf cs incoming pkt h pr pl :
+  (forall inc p q l, m inc p q l = m' inc p q l) ->
+  drop_ct_m m ver cf cs incoming pkt h pr pl = drop_ct_m m' ver cf cs incoming pkt h pr pl
+  /\ forall tracked, drop_m m cf incoming pkt h pr pl tracked = drop_m m' cf incoming pkt h pr pl tracked.
+Proof.
+  intros E. unfold drop_ct_m, drop_m, in_conns_m. split; [|intros tracked]; now rewrite ?E.
+Qed.
+
+Lemma drop_ct_m_table fw cs incoming pkt h pr pl :
+  drop_ct_m (table_matcher fw) (fw_version fw) (fw_conf fw) cs incoming pkt h pr pl = drop_ct fw cs incoming pkt h pr pl
+  /\ forall tracked, drop_m (table_matcher fw) (fw_conf fw) incoming pkt h pr pl tracked = drop fw incoming pkt h pr pl tracked.
+Proof. split; reflexivity. Qed.
+
+Theorem drop_by_rules cf inr outr fw cs incoming pkt h pr pl :
+  new_firewall cf inr outr = Some fw ->
+  drop_ct_m (rules_matcher cf inr outr) 0 cf cs incoming pkt h pr pl = drop_ct fw cs incoming pkt h pr pl
+  /\ forall tracked, drop_m (rules_matcher cf inr outr) cf incoming pkt h pr pl tracked = drop fw incoming pkt h pr pl tracked.
+Proof.
+  unfold new_firewall. destruct (add_rules cf inr empty_table) as [ti|] eqn:EI; [|discriminate].
+  destruct (add_rules cf outr empty_table) as [to|] eqn:EO; [|discriminate].
+  intros H; inversion H; subst fw; clear H.
+  assert (E : forall inc p q l, rules_matcher cf inr outr inc p q l = table_matcher (mkFw cf ti to 0) inc p q l).
+  { intros [|] p q l; unfold rules_matcher, table_matcher, fw_table; cbn [fw_in fw_out]; symmetry; now apply refine. }
+  destruct (matcher_ext _ _ 0 cf cs incoming pkt h pr pl E) as [H1 H2].
+  split; [rewrite H1|intros tracked; rewrite H2]; apply (drop_ct_m_table (mkFw cf ti to 0)).
+Qed.
+
+(* new_firewall succeeds exactly when every rule of both directions is valid *)
+Lemma new_firewall_some cf inr outr :
+  (exists fw, new_firewall cf inr outr = Some fw) <-> forallb rule_valid inr && forallb rule_valid outr = true.
+Proof.
+  unfold new_firewall. rewrite andb_true_iff, <- !(add_rules_some cf _ empty_table).
+  destruct (add_rules cf inr empty_table), (add_rules cf outr empty_table); split.
+  all: try (intros [fw H]; discriminate).
+  all: try (intros [[t1 H1] [t2 H2]]; discriminate).
+  - intros _. split; eauto.
+  - intros _. eauto.
+Qed.
